@@ -105,10 +105,29 @@ def prune_cache(max_bytes=2 << 30):
                 shutil.rmtree(os.path.join(CACHE, d), ignore_errors=True)
 
 
+FLAGS_VERSION = 4       # bump when the rustc command line changes (invalidates cached verdicts)
+
 STATS = {"compiles": 0, "compile_cache_hits": 0, "runs": 0, "compile_s": 0.0}
 
 
+_OWN_BINS = set()
+
+
+def _cleanup_own_bins():
+    for p in list(_OWN_BINS):
+        try:
+            os.remove(p)
+        except OSError:
+            pass
+
+
+import atexit
+atexit.register(_cleanup_own_bins)
+
+
 class Compiled:
+    text = None
+
     def __init__(self, ok, stderr, path=None, rc=0):
         self.ok = ok
         self.stderr = stderr
@@ -133,16 +152,19 @@ def rustc(source, mode="bin", crate_name="probe", externs=None, edition="2021", 
     """
     th, so = macro()
     externs = externs or {}
-    key = hashlib.sha256(json.dumps([source, mode, crate_name, sorted(externs.items()), edition,
+    key = hashlib.sha256(json.dumps([FLAGS_VERSION, source, mode, crate_name, sorted(externs.items()), edition,
                                      list(extra)]).encode()).hexdigest()[:32]
     cp = _cache_path(key)
-    meta = cp + ".json"
+    # executables are private to the process that built them (another process may delete its own at any time)
+    meta = cp + (".%d.json" % os.getpid() if mode == "bin" else ".json")
     if use_cache and os.path.exists(meta):
         try:
             j = json.load(open(meta))
             if (not j["ok"]) or j["path"] is None or os.path.exists(j["path"]):
                 STATS["compile_cache_hits"] += 1
-                return Compiled(j["ok"], j["stderr"], j["path"], j["rc"])
+                c = Compiled(j["ok"], j["stderr"], j["path"], j["rc"])
+                c.text = j.get("text")
+                return c
         except Exception:
             pass
     td = _tmpdir()
@@ -151,12 +173,13 @@ def rustc(source, mode="bin", crate_name="probe", externs=None, edition="2021", 
         with open(src, "w") as f:
             f.write(source)
         cmd = ["rustc", "--edition", edition, "--crate-name", crate_name, "-C", "debuginfo=0",
-               "--extern", "enum_tools=" + so]
+               "--extern", "enum_tools=" + so, "-L", "dependency=" + os.path.dirname(so),
+               "-L", "dependency=" + os.path.join(os.path.dirname(so), "deps")]
         env = _env()
         out = None
         final = None
         if mode == "bin":
-            final = cp + ".bin"
+            final = cp + ".%d.bin" % os.getpid()
             out = os.path.join(td, "out.bin")
             cmd += ["--crate-type", "bin", "-C", "debug-assertions=on", "-C", "overflow-checks=on",
                     "-C", "opt-level=0", "-C", "codegen-units=4", "-o", out]
@@ -165,7 +188,7 @@ def rustc(source, mode="bin", crate_name="probe", externs=None, edition="2021", 
         elif mode == "checkbin":
             cmd += ["--crate-type", "bin", "--emit=metadata", "--out-dir", td]
         elif mode == "rlib":
-            final = cp + ".rlib"
+            final = os.path.join(os.path.dirname(cp), "lib" + os.path.basename(cp) + ".rlib")
             out = os.path.join(td, "lib%s.rlib" % crate_name)
             cmd += ["--crate-type", "rlib", "-C", "debug-assertions=on", "-C", "overflow-checks=on",
                     "-o", out]
@@ -187,6 +210,9 @@ def rustc(source, mode="bin", crate_name="probe", externs=None, edition="2021", 
                                    text=True, timeout=timeout, cwd=td)
             except subprocess.TimeoutExpired:
                 raise InfraError("rustc timed out after %ds" % timeout)
+            if p.returncode != 0 and ("extern location for" in p.stderr or "can't find crate for `lib" in p.stderr
+                                      or "can't find crate for `enum_tools`" in p.stderr):
+                raise InfraError("harness extern crate problem:\n" + p.stderr[-1500:])
             if p.returncode != 0 and ("error: linking with" in p.stderr or "No space left" in p.stderr
                                       or "Cannot allocate memory" in p.stderr):
                 if attempt == 2:
@@ -201,13 +227,22 @@ def rustc(source, mode="bin", crate_name="probe", externs=None, edition="2021", 
         ok = p.returncode == 0
         if ok and out is not None and not os.path.exists(out):
             raise InfraError("rustc succeeded but produced no output")
+        text = None
+        if ok and mode == "expand":
+            with open(out) as f:
+                text = f.read()
+            out = final = None
         if ok and final is not None:
             os.replace(out, final)
             out = final
         res = Compiled(ok, p.stderr[-20000:], out if ok else None, p.returncode)
+        res.text = text
+        if ok and mode == "bin":
+            _OWN_BINS.add(out)
+            _OWN_BINS.add(meta)
         if use_cache:
             with open(meta + ".tmp%d" % os.getpid(), "w") as f:
-                json.dump({"ok": res.ok, "stderr": res.stderr, "path": res.path, "rc": res.rc}, f)
+                json.dump({"ok": res.ok, "stderr": res.stderr, "path": res.path, "rc": res.rc, "text": text}, f)
             os.replace(meta + ".tmp%d" % os.getpid(), meta)
         return res
     finally:
@@ -215,8 +250,8 @@ def rustc(source, mode="bin", crate_name="probe", externs=None, edition="2021", 
 
 
 def drop(compiled):
-    """Remove a cached binary (keeps the verdict)."""
-    if compiled.path and os.path.exists(compiled.path):
+    """Remove a process-private binary (shared artefacts such as rlibs are left to the cache pruning)."""
+    if compiled.path and compiled.path.endswith(".bin") and os.path.exists(compiled.path):
         try:
             os.remove(compiled.path)
         except OSError:
@@ -249,8 +284,7 @@ def run(path, script_text, timeout=300):
 
 
 def expanded_text(compiled):
-    with open(compiled.path) as f:
-        return f.read()
+    return compiled.text
 
 
 def tool_versions():
